@@ -122,6 +122,7 @@ func (l *lattice) apply(s *spec, ps []pick) {
 		s.tag(ch.tags...)
 		s.picks = append(s.picks, ch.name)
 	}
+	s.derive()
 }
 
 func coreOnly(slots []slot) []slot {
@@ -140,15 +141,20 @@ func coreOnly(slots []slot) []slot {
 
 // ---- families ------------------------------------------------------------------------------------
 
-func famLattice(thorough bool) []family {
+// famLattice returns the families of the general lattice: head = levels 0 and 1, tail = level 2
+// (and 3 in the thorough tier). The dedicated product families run between the two, so that a run cut
+// by the deadline loses the end of the (largest, most redundant) level-2 family and nothing else.
+func famLattice(thorough bool) (head, fams []family) {
 	full := newLattice(slotsG())
-	fams := []family{
+	head = []family{
 		{"G0", 1, func(int64) (*spec, int) { return defaultSpec(), 0 }},
 		{"G1", full.n1, func(i int64) (*spec, int) {
 			s := defaultSpec()
 			full.apply(s, full.level1(i))
 			return s, 1
 		}},
+	}
+	fams = []family{
 		{"G2", full.n2, func(i int64) (*spec, int) {
 			s := defaultSpec()
 			full.apply(s, full.level2(i))
@@ -163,7 +169,7 @@ func famLattice(thorough bool) []family {
 			return s, 3
 		}})
 	}
-	return fams
+	return head, fams
 }
 
 // bookmark family: every sequence of levels of length <= maxLen over {1..4} x page patterns x variants.
@@ -302,7 +308,9 @@ func famLinks(maxN, maxKindN int) family {
 	p := int64(1)
 	for n := 1; n <= maxN; n++ {
 		p *= 3
-		nk := int64(1)
+		// kind index 0 = no special kind, 1 = no special kind and no self link (with all ids at "none"
+		// the document then defines no anchor at all), 2.. = one element of a special kind
+		nk := int64(2)
 		if n <= maxKindN {
 			nk += int64(n * len(linkKinds))
 		}
@@ -350,8 +358,13 @@ func famLinks(maxN, maxKindN int) family {
 			s.tag("forced-pages")
 		}
 		pk := "kind:-"
-		if kindIdx > 0 {
-			kindIdx--
+		if kindIdx == 1 {
+			s.selfLink = "none"
+			s.tag("no-self-link")
+			pk = "kind:-,self:none"
+			dev++
+		} else if kindIdx > 1 {
+			kindIdx -= 2
 			pos, kd := int(kindIdx)/len(linkKinds), linkKinds[int(kindIdx)%len(linkKinds)]
 			s.elems[pos].kind = kd
 			s.tag("kind-" + kd)
@@ -364,6 +377,7 @@ func famLinks(maxN, maxKindN int) family {
 			ids = append(ids, e.id)
 		}
 		s.picks = []string{"ids:" + strings.Join(ids, ","), fmt.Sprint("breaks-before:", brk), pk}
+		s.derive()
 		return s, dev + len(brk)
 	}}
 }
@@ -488,13 +502,16 @@ func (c *check) Init(tier string, seed int64) engine.Space {
 	thorough := tier == "thorough"
 	c.selfTest = refSelfTest()
 	c.fams = nil
-	c.fams = append(c.fams, famLattice(thorough)...)
+	head, tail := famLattice(thorough)
+	c.fams = append(c.fams, head...)
+	c.fams = append(c.fams, famSVGClip(thorough), famTables(thorough), famMeta())
 	if thorough {
-		c.fams = append(c.fams, famBookmarks(5), famLinks(4, 4), famMeta())
+		c.fams = append(c.fams, famLinks(4, 4), famBookmarks(5))
 	} else {
-		c.fams = append(c.fams, famBookmarks(4), famLinks(4, 3), famMeta())
+		c.fams = append(c.fams, famLinks(4, 3), famBookmarks(4))
 	}
 	c.fams = append(c.fams, famBorderImage(thorough)...)
+	c.fams = append(c.fams, tail...)
 	c.total = 0
 	c.starts = nil
 	sizes := map[string]any{}
@@ -519,6 +536,8 @@ func (c *check) Init(tier string, seed int64) engine.Space {
 	}
 	c.bounds = map[string]any{
 		"families": sizes, "lattice_slots": slots,
+		"table_family":             map[string]any{"parts": tblParts, "own_group": tblOwn, "other_groups": tblOthers, "paints": len(tblPaints), "models": len(tblModels)},
+		"svg_clip_family":          map[string]any{"contents": len(svgClipContents), "targets": len(svgClipTargets), "refs": svgClipRefs, "units": svgClipUnits, "hosts": svgHosts},
 		"deviation_level":          map[string]any{"quick": "<=2 over the full menus", "thorough": "<=2 over the full menus, 3 over the core menus"}[tier],
 		"bookmark_level_sequences": map[string]any{"alphabet": "{1,2,3,4}", "max_length": map[string]int{"quick": 4, "thorough": 5}[tier]},
 		"zoom":                     []float32{1, 0.5, 2}, "page": "100x140 px, <= 3 forced pages", "engine": "pango, Ahem",
@@ -530,7 +549,7 @@ func (c *check) Init(tier string, seed int64) engine.Space {
 	}
 	return engine.Space{
 		Units: c.total, Chunk: 48, Level: "model_checking",
-		Rule:   "one unit = one document: G0..G2 (G3 thorough) = every document with <= 2 (3: core menus) deviations from the skeleton over the listed slots; B = every bookmark-level sequence x page pattern x variant; L = every assignment of ids {none,a,b} to 1..4 elements x every placement of <= 2 forced page breaks x at most one special box kind; M = full product of the title/keywords/other-meta menus; I = border-image group (source x slice x repeat x width x outset x border widths x box x zoom): every document with <= 4 deviations inside the group (thorough: the full product). A case is non-trivial when the render completed and the document produced at least one anchor, link, bookmark or metadata value that the oracle compared.",
+		Rule:   "one unit = one document: G0..G2 (G3 thorough) = every document with <= 2 (3: core menus) deviations from the skeleton over the listed slots; B = every bookmark-level sequence x page pattern x variant; L = every assignment of ids {none,a,b} to 1..4 elements x every placement of <= 2 forced page breaks x (at most one special box kind | no self link: with no id the document defines no anchor at all); T = table-part paint: painted part (table, caption, colgroup, col 1/2, thead, tbody, tfoot, tr, td) x content of its row group (2 cells, 1 cell, empty cells, empty row, empty row + row, no row) x other row groups (none, full, short) x paint (backgrounds, borders, outlines) x border model (separate, collapse, empty-cells:hide) (x zoom, thorough); S = svg clip-path/mask: content of the clipPath/mask (shapes, degenerate shapes, empty containers, hidden children, childless) x clipped element x attribute x units x host (inline, img, background) (x zoom, thorough); M = full product of the title/keywords/other-meta menus; I = border-image group (source x slice x repeat x width x outset x border widths x box x zoom): every document with <= 4 deviations inside the group (thorough: the full product). A case is non-trivial when the render completed and the document produced at least one anchor, link, bookmark or metadata value that the oracle compared.",
 		Bounds: c.bounds,
 		Assumptions: []string{
 			"Paint(0) (the 'end path without painting' operation) on an empty path is not counted as painting",
